@@ -2,7 +2,7 @@
    Statements only; proofs are in Proofs/ValidateOverlap.v and Proofs/ValidateRules.v. *)
 From Coq Require Import List NArith ZArith String Bool.
 From GQL Require Import Exec.Syntax Validate.VSyntax Validate.Overlap Validate.OverlapSpec Validate.Rules
-     Exec.Exec Proofs.ValidateOverlap Proofs.ValidateRules Proofs.ValidateMerge Proofs.ValidateMemo Proofs.ValidateInputFields Proofs.ValidateArgs Proofs.ValidateCycles Proofs.ValidateUnused.
+     Exec.Exec Proofs.ValidateOverlap Proofs.ValidateRules Proofs.ValidateMerge Proofs.ValidateMemo Proofs.ValidateInputFields Proofs.ValidateArgs Proofs.ValidateCycles Proofs.ValidateUnused Proofs.ValidateMemoHard.
 Import ListNotations.
 Open Scope string_scope.
 
@@ -39,6 +39,25 @@ Theorem C02_overlap_memo_transparent_partial : forall S D memo fuel,
   L2_accepts S D -> run_overlap S D memo fuel = [].
 Proof. exact L2_accepts_exec. Qed.
 Print Assumptions C02_overlap_memo_transparent_partial.
+
+(* Memo transparency, the hard direction: the memo tables never hide a conflict.  For every
+   document (cyclic or not) whose selection sets are told apart by (parent type, id of the
+   first selection) -- the implementation tells them apart by pointer -- and whose fields have
+   unique argument names (otherwise sameArguments is not symmetric while the pair memo is):
+   if the memoised algorithm (L3) completes within its fuel and reports nothing, then the
+   unmemoised algorithm (L2 as coded) reports nothing at any fuel.  With
+   C02_overlap_memo_transparent_partial (L2 accepts => L3 accepts): L3 and L2 agree on
+   accept/reject.  Proof: the memoised run is a depth-first search with a visited set; at
+   its end every memo entry is locally correct w.r.t. the final tables and everything it
+   would recurse into is covered, and the unmemoised run only asks covered questions
+   (DS, ids_distinct, args_unique are defined in Proofs/ValidateMemoHard.v). *)
+Theorem C02_overlap_memo_transparent : forall S D fuel fuel',
+  ids_distinct S D -> args_unique S D ->
+  run_complete S D true fuel = true ->
+  run_overlap S D true fuel = [] ->
+  run_overlap S D false fuel' = [].
+Proof. exact memo_transparent. Qed.
+Print Assumptions C02_overlap_memo_transparent.
 
 (* Hence the model of the rule never rejects a document that satisfies the specification L1. *)
 Theorem C02_overlap_accepts_valid : forall S D memo fuel,
